@@ -363,6 +363,27 @@ func (fa *Facts) At(b *ssa.BasicBlock) *Formula {
 // AtInstr returns the condition holding just before instruction in.
 func (fa *Facts) AtInstr(in ssa.Instruction) *Formula { return fa.At(in.Block()) }
 
+// AtInstrX: the condition at an instruction; for a return that passes a transparent helper's error through
+// (`return helper(...)`, `v, err := helper(...); return v, err`) and is a success return only if the helper succeeded, the helper's
+// success condition is part of what holds when the function returns successfully there.
+func (fa *Facts) AtInstrX(in ssa.Instruction) *Formula {
+	F := fa.At(in.Block())
+	ret, ok := in.(*ssa.Return)
+	if !ok || len(ret.Results) == 0 || fa.NoExpand {
+		return F
+	}
+	ev := ret.Results[len(ret.Results)-1]
+	if ev.Type().String() != "error" || isNilConst(ev) {
+		return F
+	}
+	if hc, g, ok := fa.errOfHelperCall(ev); ok && hc.Parent() == fa.fn {
+		if S := fa.errorSummary(g, hc, fa.o, 0); S != nil {
+			return fAnd(F, S)
+		}
+	}
+	return F
+}
+
 // edgeCond is the condition under which control goes from cur to its si-th successor.
 func (fa *Facts) edgeCond(cur *ssa.BasicBlock, si int, path []*ssa.BasicBlock) *Formula {
 	if len(cur.Instrs) == 0 {
@@ -578,7 +599,7 @@ func (fa *Facts) predicateSummary(callee *ssa.Function, call *ssa.Call, o *Origi
 // DominatingFact checks that, at instruction `at`, the path condition entails some atom (positive if
 // want==true, negated otherwise) whose term satisfies match. It returns the atom used as witness.
 func (fa *Facts) DominatingFact(at ssa.Instruction, want bool, match func(*Term) bool) (string, bool) {
-	F := fa.At(at.Block())
+	F := fa.AtInstrX(at)
 	for _, a := range F.Atoms() {
 		if a.Term == nil || !match(a.Term) {
 			continue
